@@ -22,7 +22,7 @@ import (
 )
 
 // ruleMore describes what was added to the exploration in the build phase.
-const ruleMore = "; stray text may be glued to the previous token and may be a byte sequence that is not UTF-8"
+const ruleMore = "; large specifications with one token deleted or a stray inserted; strays beyond U+00FF whose low byte is a character of the language; stray text may be glued to the previous token and may be a byte sequence that is not UTF-8"
 
 func TestMain(m *testing.M) { rec.Main(m, "C20") }
 
@@ -173,7 +173,9 @@ func mkTok(t *rapid.T, kind string) ref.Tok {
 	return ref.Tok{Kind: kind, Src: src, Lexeme: lex}
 }
 
-var strays = []string{"#", "@lef", "@lefty", "$", "$a", `"abc`, `""`, "'x'", "/abc", "%", "\\", "é", "\x01", "^", "9a", "/* open", "/*/", "~", "$1", "$_", "$9A", "$_ID", "\xff", "\xc3(", "\xfe\xfe", "\xe4\xb8", "\x00", "\x00x", "\u2400"}
+var strays = []string{"#", "@lef", "@lefty", "$", "$a", `"abc`, `""`, "'x'", "/abc", "%", "\\", "é", "\x01", "^", "9a", "/* open", "/*/", "~", "$1", "$_", "$9A", "$_ID", "\xff", "\xc3(", "\xfe\xfe", "\xe4\xb8", "\x00", "\x00x", "\u2400",
+	// characters beyond U+00FF whose low byte is a character of the language (blank, ; = " / { a A 0 _)
+	"\u0120", "\u013b", "\u013d", "\u0122", "\u012f", "\u017b", "\u0161", "\u0141", "\u0130", "\u015f", "\u2120", "\u213b", "\U0001003d", "\u010a", "\u0109"}
 
 var tails = []string{"", ";", " \x00 ", " // c\n\x00",  " ; x = y ;", " ) ) ] }}", " @left \"a\" TK = /x/ start = ;", " # $ %", " /* open", "\n\n grammar g ; start = \"a\" ;\n"}
 
@@ -315,6 +317,45 @@ func TestEveryPositionOfFixedSpecs(t *testing.T) {
 		}
 	}
 	rec.Count("fixed_position_variants", n)
+}
+
+// large specifications (gen.BigModels): one token deleted, or a stray character inserted, near the beginning, in the
+// middle and near the end of hundreds of alternatives, nested groups, repetitions, rules, declarations and directives
+func TestLargeSpecifications(t *testing.T) {
+	rec.Begin(t)
+	rec.Rule(rule + ruleMore)
+	if rec.Shard() != 0 {
+		t.Skip("seed independent: shard 0 only")
+	}
+	n := 0
+	for _, m := range gen.BigModels() {
+		text, toks := gen.BigText(m)
+		rs := []rune(text)
+		for _, i := range []int{4, len(toks) / 3, len(toks) / 2, len(toks) - 4} {
+			end := toks[i].Off + len([]rune(toks[i].Src))
+			variants := []string{
+				string(rs[:toks[i].Off]) + " " + string(rs[end:]),   // token i deleted
+				string(rs[:toks[i].Off]) + "# " + string(rs[toks[i].Off:]), // a stray character in front of token i
+				string(rs[:end]),                                     // truncated after token i
+			}
+			for _, v := range variants {
+				hazard := false
+				for _, b := range scanner.Boundaries(v + "\n") {
+					hazard = hazard || b%4096 == 4095
+				}
+				if hazard {
+					continue // the class of the listed dependency finding of C13
+				}
+				n++
+				e, err := checkText(v, " ; x = ;")
+				rec.Case(v, e.kind != "none", "large_specification", "error_"+e.kind)
+				if err != nil {
+					rec.Fail(t, "text", mkInput(v, " ; x = ;"), "large specification %s: %v", m.Name, err)
+				}
+			}
+		}
+	}
+	rec.Count("large_specification_variants", n)
 }
 
 // the command-line tool reports the same position on its error stream, with the name of the input file
